@@ -60,6 +60,10 @@ CLAIMED = {
   text="Proof (all inputs) for the SDK-owned part of the JSON-RPC codec: MakeID/StringID/Int64ID/IsValid (type-preserving id coercion), decodeID (an id that strconv.ParseInt accepts becomes exactly that int64 with no float64 step; otherwise MakeID of the generic decode), DecodeMessage after the library decode (exactly one of message/error; id error propagates; a message with a method key is a Request carrying the decoded id; otherwise a Response with a valid id), Request/Response.marshal (id value, method, params, result copied; error mapped by toWireError), WireError.Is (code equality). A raw QF_BVFP lemma decides float64 coercion exactness: proved for |n| <= 2^53, refuted over the whole int64 range - that refutation found defect F4 (message ids above 2^53 altered), repaired by a fix: commit; the residue (ids inside params still coerced through float64) is a listed known finding.",
   note="Trusted: encoding/json and internal/json (Unmarshal writes only through its destination; number -> float64 nearest-double axiom J1), strconv.ParseInt (opaque: exact by its documentation), fmt.Errorf non-nil. Not decided: byte-level round trip through encoding/json, ndjson/SSE framing (C09 territory), content/result custom JSON methods in mcp/content.go and mcp/protocol.go, never-panics-on-arbitrary-bytes of the library decoders.",
   ref="DESIGN.md 10/C19"),
+ "C11": dict(
+  text="Proof over all schedules via two lock-style monitors plus per-function contracts. Monitor timerMu (sessionInfo.timerMu): in every critical section (startPOST, endPOST, stopTimer) the in-flight POST count stays >= 0, a stopped timer stays stopped and is never replaced, and the idle timer is never armed while a POST is in flight (ghost attribute armed, set by AfterFunc/Reset, cleared by Stop); lock discipline for refs/timer by a flow analysis. Monitor hmu (StreamableHTTPHandler.mu): every table entry is a session; the table is touched only under the lock (so the stateless path never touches it). Contracts (all inputs): lookupSession (id not in table => 404; user-bound session and absent/different user => 403; proceeds only for the owner, with exactly the table entry), stateful DELETE/GET/POST (only a request let through by lookupSession reaches the session or closes it; POST with an id is counted in flight exactly while served and mints nothing; ids minted only without one), onClose hook (closed session is removed from the table and its timer stopped), serveStateless (non-POST => 405, no id read or minted, temporary session closed).",
+  note="Trusted: A-TIMER (a timer's function runs only while armed; Stop disarms, Reset/AfterFunc arm), fewer than 2^62 POSTs in flight, serveStatefulPOST initialises sessionInfo before publishing it (unpublished exemption), http.Error/Header.Get/Values/mime specs, auth.TokenInfoFromContext and ServerSession.Close/ServeHTTP opaque (tracked), code called while a lock is held does not re-enter it. Not decided: that session.Close always runs onClose (ServerSession.Close is outside the contracts), wall-clock behaviour of the timer, the race where the timer fires just before startPOST stops it, duplicate ids from a user-supplied GetSessionID, endPOST's 'negative ref count' panic (needs call-pairing history).",
+  ref="DESIGN.md 10/C11"),
 }
 
 NOT_YET = "contracts not completed yet (build in progress; see DESIGN.md section 12)"
